@@ -2,6 +2,7 @@ import RosuModel.Model.GradualWire
 import RosuModel.Model.BuilderWire
 import RosuModel.Model.Convert
 import RosuModel.Model.DecodeWire
+import RosuModel.Model.DecodeLineWire
 import RosuModel.Model.TaikoTicksWire
 import RosuModel.Model.DetWire
 import RosuModel.Model.AttrsWire
@@ -29,6 +30,10 @@ def handle (line : String) : String :=
   | ["DECODE", mania, times, tags, sounds] => Decode.handleDecode mania times tags sounds
   | ["CLAMP", mania, f32s, f64s] => Decode.handleClamp mania f32s f64s
   | ["CPTS", lines] => Decode.handlePoints lines
+  | ["DLN", sec, mode, lines] => DecodeLine.handleDLN sec mode lines
+  | ["DFILE", lines] => DecodeLine.handleDFILE lines
+  | ["DNUM", kind, s] => DecodeLine.handleDNUM kind s
+  | ["DROUTE", lines] => DecodeLine.handleDROUTE lines
   | ["COL", total, xs] => Decode.handleCol total xs
   | ["C2P", total] => Decode.handleC2P total
   | ["C2PSET", total, xs] => Decode.handleC2PSet total xs
